@@ -764,3 +764,4 @@ UNITS.append(("C09.lines.rebuilt_from_scratch_from_their_own_strings", unit_line
 from props.c09_ext4 import UNITS as _U4; UNITS = UNITS + _U4
 from props.c09_xgas import UNITS as _UX; UNITS = UNITS + _UX
 from props.c09_punchframe import UNITS as _UP; UNITS = UNITS + _UP
+from props.c09_ext5 import UNITS as _U5; UNITS = UNITS + _U5
